@@ -153,3 +153,42 @@ def reprocessRow (T : Transc α) (tol target : α) (nIter : Nat) (ps : List α) 
 end
 end Graph
 end Umap
+
+namespace Umap
+namespace Graph
+
+section
+variable {α : Type} [Add α] [Sub α] [Mul α] [Div α] [Neg α] [LT α] [LE α]
+  [DecidableLT α] [DecidableLE α] [OfNat α 0] [OfNat α 1] [NatCast α]
+
+/-- the directed membership rows of a kNN table (`smooth_knn_dist` + `compute_membership_strengths`). -/
+def memberRows (T : Transc α) (tol minScale target : α) (lcIdx : Nat) (lcFrac : α) (nIter : Nat)
+    (idx : List (List (Option Nat))) (ds : List (List (Option α))) :
+    List (List (Option (Nat × Option α))) :=
+  let sr := Knn.smoothKnn T tol minScale target lcIdx lcFrac nIter ds
+  (idx.zip (ds.zip sr)).zipIdx.map fun ((ix, d, s, rh), i) => Knn.memberRow T false i s rh ix d
+
+/-- the whole graph stage from a kNN table: `fuzzy_simplicial_set(..., knn_indices, knn_dists,
+    set_op_mix_ratio = r)`; `none` if a strength is NaN. -/
+def graphOfKnn (T : Transc α) (tol minScale target : α) (lcIdx : Nat) (lcFrac : α) (nIter : Nat) (r : α)
+    (idx : List (List (Option Nat))) (ds : List (List (Option α))) : Option (Coo α) :=
+  (assemble (memberRows T tol minScale target lcIdx lcFrac nIter idx ds)).map (symmetrize r)
+
+/-- the first `k` columns of a table (`knn_indices[:, :n_neighbors]`). -/
+def takeCols {β : Type} (k : Nat) (tbl : List (List β)) : List (List β) := tbl.map (·.take k)
+
+/-- `init_graph_transform`: `none` = an all-NaN row (no neighbour), a neighbour of strength 1
+    copies its position, otherwise the strength-weighted mean of the neighbours' positions. -/
+def initGraphTransformRow (row : List (Nat × α)) (emb : Nat → List α) (dim : Nat) : Option (List α) :=
+  if row.length = 0 then none else
+  match row.find? (fun p => eqV p.2 1) with
+  | some p =>
+      -- rows before the unit entry have already been accumulated, then overwritten by the copy
+      some (emb p.1)
+  | none =>
+    let s := sumL (row.map (·.2))
+    some ((List.range dim).map (fun d => sumL (row.map (fun p => p.2 / s * (emb p.1).getD d 0))))
+
+end
+end Graph
+end Umap
